@@ -53,6 +53,9 @@ pub struct FnSpec {
     pub insts: Vec<(String, String)>,
     /// E12: type ascriptions added to untyped `let` bindings (name, type) — checked by rustc
     pub annots: Vec<(String, String)>,
+    /// emit a From/TryFrom impl method as a free function (breaks verifier call-graph cycles
+    /// through the conversion traits; the method body is unchanged)
+    pub as_free: bool,
     pub spec_file: String,
     pub spec_line: usize,
 }
@@ -186,6 +189,7 @@ pub fn parse_file(path: &str) -> Vec<Item> {
                     "as" => fs.out_name = Some(rest),
                     "ret" => fs.ret = Some(rest),
                     "external" => fs.external = true,
+                    "as_free" => fs.as_free = true,
                     "annot" => {
                         let (a, b) = rest.split_once(':').unwrap_or_else(|| die(&format!("{}:{}: annot needs `name : type`", path, ln)));
                         fs.annots.push((a.trim().to_string(), b.trim().to_string()));
